@@ -23,6 +23,7 @@ func c05(c *Ctx) {
 	r.Decides("deleting a reservation from the primary map deletes its uid from all three node indexes before returning; a uid enters the matchable index only for a matchable reservation and the allocated index only for a matchable reservation with assigned pods; the three refresh blocks agree")
 	r.Decides("a restricted reservation is reported fitting only through fitsReservation returning no reason; in fitsReservation every reserved, requested, non-ignored dimension reaches the comparison, and the non-negative clamp of the used amount comes after the preemptible credit")
 	r.Decides("IsMatchable is false for an allocate-once reservation that already has a pod; a pod is matched only if reservations are ignored for it or MatchOwners(pod) holds; default-mode pre-allocation requires MatchOwners")
+	r.Decides("UpdateReservation/UpdatePod re-derive every object-derived field (owner matchers, parse error, resource names, ...) on every path, so nothing of the previous version of the object survives an update")
 	r.Decides("the cache maps are accessed only under cache.lock")
 	r.Declines("the quantity comparison itself and the sums over histories")
 
@@ -31,6 +32,7 @@ func c05(c *Ctx) {
 	c05indexes(c)
 	c05fit(c)
 	c05match(c)
+	c05refresh(c)
 
 	r.Rule("LOCK: reservationCache.{reservationInfos,reservationsOnNode,matchableOnNode,allocatedOnNode,preAllocatablePodsOnNode} are read under lock and written under the write lock")
 	c.RunLock("LOCK", LockCfg{Pkg: resvPkg, Type: "reservationCache", Mutex: "lock",
@@ -514,5 +516,60 @@ func c05match(c *Ctx) {
 			}
 		}
 		r.Check(n >= 1 && !bad, "PATH", fkey(fn)+"/owner-check", c.Pos(fn.Pos()), "default-mode pre-allocation requires the owner match", "a pre-allocatable pod can be matched in default mode without satisfying the owner specification")
+	}
+}
+
+// c05refresh: an update of the reservation object replaces every derived field.
+func c05refresh(c *Ctx) {
+	r := c.R
+	r.Rule("COMPLETE(refresh): in ReservationInfo.UpdateReservation and UpdatePod every receiver field the function assigns from the new object (all stored fields except self-derived ones such as Allocated = Mask(Allocated,..)) is assigned on every path to the return; OwnerMatchers and ParseError are among them")
+	for _, name := range []string{"UpdateReservation", "UpdatePod"} {
+		fn := c.Fn("pkg/scheduler/frameworkext", "ReservationInfo", name)
+		if fn == nil {
+			continue
+		}
+		recv := an.Receiver(fn)
+		stored := map[string]bool{}
+		selfDerived := map[string]bool{}
+		for _, b := range fn.Blocks {
+			for _, in := range b.Instrs {
+				st, ok := in.(*ssa.Store)
+				if !ok {
+					continue
+				}
+				fa, ok := st.Addr.(*ssa.FieldAddr)
+				if !ok || fa.X != ssa.Value(recv) {
+					continue
+				}
+				f := fieldNameOf(fa)
+				stored[f] = true
+				for x := range backwardAll(st.Val) {
+					if ld, ok := x.(*ssa.UnOp); ok {
+						if fa2, ok := ld.X.(*ssa.FieldAddr); ok && fa2.X == ssa.Value(recv) && fa2.Field == fa.Field {
+							selfDerived[f] = true
+						}
+					}
+				}
+			}
+		}
+		for _, must := range []string{"OwnerMatchers", "ParseError", "ResourceNames", "Allocatable"} {
+			if !stored[must] {
+				r.Fail("COMPLETE", fkey(fn)+"/assigns/"+must, c.Pos(fn.Pos()), must+" is never assigned: the value derived from the previous version of the object survives the update")
+			}
+		}
+		for _, f := range keysOf(stored) {
+			if selfDerived[f] {
+				continue
+			}
+			reach := an.Explore(fn, nil, nil, func(in ssa.Instruction) bool {
+				st, ok := in.(*ssa.Store)
+				if !ok {
+					return false
+				}
+				fa, ok := st.Addr.(*ssa.FieldAddr)
+				return ok && fa.X == ssa.Value(recv) && fieldNameOf(fa) == f
+			})
+			r.Check(len(reach.Returns()) == 0, "COMPLETE", fkey(fn)+"/assigns/"+f, c.Pos(fn.Pos()), f+" is assigned on every path", "the update can return without assigning "+f+": the value derived from the previous version of the object stays in effect (for OwnerMatchers: pods keep matching a reservation that no longer declares them as owners)")
+		}
 	}
 }
